@@ -737,7 +737,12 @@ class ProcProxy:
                 inbuf = open(self.stdin, "rb", -1)
             else:
                 inbuf = self.stdin
-            stdin = io.TextIOWrapper(inbuf, encoding=enc, errors=err)
+            if hasattr(inbuf, "encoding"):
+                # already a text stream (e.g. ``alias < file`` opens the file
+                # in text mode), wrapping it again makes read() fail.
+                stdin = inbuf
+            else:
+                stdin = io.TextIOWrapper(inbuf, encoding=enc, errors=err)
             if isinstance(self.stdin, int):
                 owned_handles.append(stdin)
         stdout = self._pick_buf(self.stdout, sys.stdout, enc, err)
